@@ -502,6 +502,8 @@ class DnsRecordTxt(ParsableBase):
     def compose(self):
         composer = ComposerBinary()
 
-        composer.compose_string(self.value, 'ascii', 1)
+        # a character-string holds at most 255 octets (RFC 1035 3.3); longer values take several of them
+        for offset in range(0, max(len(self.value), 1), 255):
+            composer.compose_string(self.value[offset:offset + 255], 'ascii', 1)
 
         return composer.composed_bytes
